@@ -375,8 +375,9 @@ func init() {
 		Explanation: "Decides only the termination clause ('reading bookmarks terminates on any outline, including cyclic ones'), structurally: in pkg/pdfcpu/bookmark.go and pkg/api/bookmark.go " +
 			"(R1) every recursion component is cut by a guarded call edge (checkBookmarkRecursionDepth with the caller's depth / checkBookmarkCycle on the caller's visited set) — triage entries are not accepted here; " +
 			"(R2) every loop that follows /Next (or any other reference chain) passes checkBookmarkCycle (or an equivalent test-and-set) on every path from the loop head to the next iteration, including the `continue` paths. " +
-			"NOT decided: the export/import round trip itself (titles, pages, nesting, order, colour, style) — a value-level property; seeded change C36-A (destination written after registration) is out of reach.",
-		Rules:       []string{"C36.R1 SCC: bookmark recursion guarded", "C36.R2 MPT: bookmark chain loops guarded per iteration"},
+			"(R3, one clause of the round trip) where a bookmark's named destination is registered with Node.Add(…, m, keys), no dictionary entry named in keys is stored after the call: the registration renames a destination whose title is already taken and rewrites those entries, and a later store would undo that, making bookmarks with equal titles share one target. " +
+			"NOT decided: the rest of the export/import round trip (titles, pages, nesting, order, colour, style) — value-level.",
+		Rules:       []string{"C36.R1 SCC: bookmark recursion guarded", "C36.R2 MPT: bookmark chain loops guarded per iteration", "C36.R3 order: entries a name registration may rewrite are not stored after it"},
 		Assumptions: []string{"same call graph and guard recognition as C08"},
 		Technique:   "call-graph SCC analysis and natural-loop must-pass-through dataflow on SSA (shared with C08), restricted to the bookmark files",
 		Note:        "Partial: termination clause only.",
@@ -542,6 +543,8 @@ func runC36(c *Ctx) {
 			r.Bad("C36.R1", funcNames(k)[0], "recursion", p.Fset.Position(k[0].Pos()).String(), fmt.Sprintf("bookmark recursion {%s} has a cycle without a depth or visited guard", strings.Join(funcNames(k), ", ")))
 		}
 	}
+	r.MinInst["C36.R3"] = 2
+	checkRegisteredKeysNotRewritten(c, "C36.R3")
 	saved := c08LoopTriage
 	c08LoopTriage = map[string]triage{}
 	runC08R2(c, gs, "C36.R2", func(fid string) bool {
@@ -660,5 +663,68 @@ func init() {
 		for _, o := range c.R.Obls {
 			fmt.Printf("%s %s\n    %s\n", o.Verdict, o.Key, o.Witness)
 		}
+	}
+}
+
+// checkRegisteredKeysNotRewritten (C36.R3): Node.Add(xRefTable, key, value, m, keys) registers a name in a name tree; when the
+// name is taken it picks a fresh one and rewrites, in the dictionaries listed in m, the entries named by keys so that they keep
+// pointing at the registered name. A store into such an entry *after* the call overwrites that correction: two bookmarks with
+// the same title then share one destination. No constant key of the keys list may be stored into a types.Dict after the call.
+func checkRegisteredKeysNotRewritten(c *Ctx, rule string) {
+	p, r := c.P, c.R
+	n := 0
+	for _, fn := range p.Funcs {
+		fid := FuncID(fn)
+		if !strings.HasPrefix(fid, "pkg/") {
+			continue
+		}
+		fn := fn
+		eachInstr(fn, func(_ *ssa.BasicBlock, _ int, i ssa.Instruction) {
+			call, ok := i.(*ssa.Call)
+			if !ok {
+				return
+			}
+			if _, ref := callRef(call); ref != "pkg/pdfcpu/model.Node.Add" || len(call.Call.Args) < 6 {
+				return
+			}
+			// constant keys of the last argument (a slice literal)
+			keys := map[string]bool{}
+			if sl, ok := call.Call.Args[5].(*ssa.Slice); ok {
+				if al, ok := sl.X.(*ssa.Alloc); ok {
+					for _, rf := range *al.Referrers() {
+						if ia, ok := rf.(*ssa.IndexAddr); ok {
+							for _, r2 := range *ia.Referrers() {
+								if st, ok := r2.(*ssa.Store); ok {
+									if s, ok := constString(st.Val); ok {
+										keys[s] = true
+									}
+								}
+							}
+						}
+					}
+				}
+			}
+			if len(keys) == 0 {
+				return // keys not a literal here (forwarded): nothing to decide at this site
+			}
+			n++
+			construct := fmt.Sprintf("Node.Add#%d", n)
+			bad := ""
+			for _, after := range instrsAfter(call) {
+				if mu, ok := after.(*ssa.MapUpdate); ok && typeNameOf(mu.Map.Type()) == "Dict" {
+					if k, ok := constString(mu.Key); ok && keys[k] {
+						bad = k + " at " + p.Pos(mu.Pos())
+					}
+				}
+			}
+			if bad == "" {
+				r.OK(rule, fid, construct, p.Pos(call.Pos()), "no entry that the registration may rewrite is stored after the call", true)
+			} else {
+				r.Bad(rule, fid, construct, p.Pos(call.Pos()), "the dictionary entry "+bad+" is stored after the name was registered: the registration's correction for a name that was already taken is overwritten, so entries with equal titles end up sharing one target")
+			}
+		})
+	}
+	if n == 0 {
+		r.Bad(rule, "pkg/pdfcpu/model.Node.Add", "anchor", "", "UNRESOLVED-ANCHOR: no registration with a literal key list found")
 	}
 }
